@@ -244,6 +244,7 @@ JNP = ('jax.numpy.', 'jnp.')
 class Taint:
     node: ast.AST
     why: str
+    definite: bool = True  # False: the value could not be classified (not known to be an array): undecided, not a finding
 
 
 class KindInterp:
@@ -600,7 +601,18 @@ class KindInterp:
     def static_cond(self, test: ast.AST, env: dict, what: str) -> None:
         v = self.eval(test, env)
         if not self.is_static(v):
-            self.taints.append(Taint(test, f'{what} condition `{ast.unparse(test)[:60]}` depends on {describe(v)}: Python control flow on a traced value'))
+            self.taints.append(Taint(test, f'{what} condition `{ast.unparse(test)[:60]}` depends on {describe(v)}: Python control flow on a traced value',
+                                     definite=self.is_array(v)))
+
+    def is_array(self, v: Any) -> bool:
+        """v is known to be (or to contain) an array that is traced under jit."""
+        if isinstance(v, (Lin, Par, Zero, NonLin)):
+            return True
+        if isinstance(v, Tup):
+            return any(self.is_array(x) for x in v.items)
+        if isinstance(v, (UList, TreeOf)):
+            return self.is_array(v.elem)
+        return False
 
     def is_static(self, v: Any) -> bool:
         if isinstance(v, (Py, Struct, Op, Obj, Fn, FnSet, ExternFn)):
@@ -654,6 +666,9 @@ class KindInterp:
                 return Py()
             if any(isinstance(v, (Lin, NonLin)) for v in vals):
                 return NonLin('comparison involving the input')
+            unk = next((v for v in vals if isinstance(v, Unknown)), None)
+            if unk is not None and not any(self.is_array(v) for v in vals):
+                return unk
             return Par()
         if isinstance(e, (ast.Tuple, ast.List)):
             items = []
@@ -825,6 +840,9 @@ class KindInterp:
                 return AtRef(base)
             if attr == 'value' and isinstance(base, Par):
                 return Par()
+            # class-level constants of the Stokes containers (x.stokes): Python values, not data
+            if self._stokes_class_constant(attr):
+                return Py(f'.{attr}')
             # Stokes component of a pytree value (x.q)
             if len(attr) == 1 and attr in 'iquv':
                 return Lin(select_kind(base.k)) if isinstance(base, Lin) else base
@@ -854,6 +872,18 @@ class KindInterp:
         if isinstance(base, Fn):
             return Py('function attribute')
         return Unknown(f'attribute {attr} of {describe(base)}')
+
+    def _stokes_class_constant(self, attr: str) -> bool:
+        from .linform import STOKES_BASE
+
+        hits = 0
+        for c in self.table.subclasses(STOKES_BASE):
+            v = c.own.get(attr)
+            if isinstance(v, (ast.Assign, ast.AnnAssign)) and isinstance(getattr(v, 'value', None), ast.Constant):
+                if any(f.name == attr for f in self.table.fields(c)):
+                    return False
+                hits += 1
+        return hits > 0
 
     def obj_attr(self, obj: Obj, attr: str, node: ast.AST) -> Any:
         for f in self.table.fields(obj.cls):
@@ -1122,8 +1152,8 @@ class KindInterp:
             if name == 'isinstance':
                 return Py('isinstance')
             if name in ('len',):
-                if isinstance(vals[0], (Lin, Par, Zero, Py, Struct, Tup, UList, TreeOf, Op)):
-                    return Py('len')
+                # len() of anything is a Python int; for a traced array it is the static leading dimension
+                return Py('len')
             if name in ('int', 'float', 'bool', 'range', 'complex'):
                 if not static_args:
                     self.taints.append(Taint(e, f'{name}() applied to {", ".join(describe(v) for v in vals)}: a traced value is concretised / used as a Python loop bound'))
